@@ -160,5 +160,76 @@ def residual_from_stack_contract():
                     doc="stacked residuals evaluate each part on its own leading coefficients")
 
 
+_G = {}
+
+
+def _uf(m, k, time):
+    from vcgen import prims
+
+    key = (m, k, time)
+    if key not in _G:
+        def native(*args):
+            xs = args[:k]
+            out = sum(jnp.sin(x * (0.3 + 0.1 * i)) for i, x in enumerate(xs))
+            return out * (1.0 + (0.2 * args[k] if time else 0.0))
+        _G[key] = prims.make_uf(f"g_m{m}_k{k}_{'t' if time else 'aut'}", [(m,)] * k, (m,), native=native, time_arg=time)
+    return _G[key]
+
+
+def constructor_contract(name, k, time=True, surplus=0):
+    """The problem constructors wrap a user function of (u, u', ..., [t]) into the jet-coordinate interface: value,
+    number of coefficients consumed and index of the constrained coefficient are as documented."""
+    m = 2
+
+    def wrap(target):
+        def f(coords, t):
+            g = _uf(m, k, time)
+            user = (lambda *a, t: g(*a, t)) if time else (lambda *a: g(*a))
+            kw = {"num_tcoeffs_in_args": k} if "arbitrary" in name else {}
+            obj = target(user, **kw)
+            cs = list(coords) if "arbitrary" in name else list(coords)[:k]
+            if hasattr(obj, "residual_function"):
+                out = obj.residual_function(jet_coords=cs, t=t)
+                idx = jnp.zeros((0,), dtype=jnp.int32)
+            elif time:
+                out = obj.vector_field(jet_coords=cs, t=t)
+                idx = jnp.asarray(obj.tcoeff_indices_output, dtype=jnp.int32)
+            else:
+                # autonomous descriptions: the time-free callable and the (u, t) interface must agree
+                a = obj.autonomous(jet_coords=cs)
+                b = obj.vector_field(jet_coords=cs, t=t)
+                out = [a if not isinstance(a, (list, tuple)) else a[0], b if not isinstance(b, (list, tuple)) else b[0]]
+                idx = jnp.asarray(obj.tcoeff_indices_output, dtype=jnp.int32)
+            return [jnp.asarray(o) for o in out], jnp.asarray(obj.num_tcoeffs_in_args), idx
+
+        return f
+
+    def ensures(res, coords, t):
+        outs, nargs, idx = res
+        g = _uf(m, k, time)
+        val = g(*coords[:k], t) if time else g(*coords[:k])
+        cl = [holds("one_output", jnp.asarray(len(outs) == (1 if time else 2))), eq("value_is_the_user_function_of_the_leading_coefficients", outs[0], val), holds("number_of_coefficients_consumed", nargs == k)]
+        if not time:
+            cl.append(eq("time_interface_ignores_t", outs[1], val))
+        if idx.shape[0]:
+            cl.append(holds("constrained_coefficient_is_u^(k)", jnp.all(idx == k)))
+        return cl
+
+    def instances(tier):
+        def make(rng):
+            return (tuple(jnp.asarray(rng.normal(size=(m,))) for _ in range(k + surplus)), jnp.asarray(rng.normal())), {}
+        return [Instance(f"k={k},surplus={surplus}", make)]
+
+    return Contract(name=f"{MOD}:{name}", module=MOD, qualname=name, wrap=wrap, ensures=ensures, instances=instances,
+                    doc="constructor wraps f(u, ..., u^(k-1)[, t]) into the jet interface: value, arity, constrained coefficient")
+
+
+def constructor_contracts():
+    return [constructor_contract("ode", 1), constructor_contract("ode_order_two", 2), constructor_contract("ode_order_arbitrary", 3, surplus=1),
+            constructor_contract("ode_autonomous", 1, time=False), constructor_contract("ode_autonomous_order_two", 2, time=False),
+            constructor_contract("ode_autonomous_order_arbitrary", 2, time=False, surplus=1),
+            constructor_contract("residual_position", 1), constructor_contract("residual_velocity", 2), constructor_contract("residual_acceleration", 3)]
+
+
 def contracts():
-    return [lift_contract("ode"), lift_contract("residual"), lift_contract("ode", via_max=True), lift_contract("residual", via_max=True), residual_from_ode_contract(), residual_from_stack_contract()]
+    return constructor_contracts() + [lift_contract("ode"), lift_contract("residual"), lift_contract("ode", via_max=True), lift_contract("residual", via_max=True), residual_from_ode_contract(), residual_from_stack_contract()]
